@@ -39,3 +39,8 @@ claim("C03", "relational typestate analysis over go/cfg (method inlining, deferr
       "Decides on every abstract path (entry states {Nil,Open} for MAIL/RCPT/RSET/QUIT, {Open} for DATA, per assumption A1 pinned to the go-smtp version): the open delivery is never overwritten or dropped while open, never used/closed when not open, Reset/Logout leave nothing open; the stored sender is immutable while open; pipeline Commit/Abort close every started target delivery; Commit only after successful body preparation, loop check and Body; success reply only after successful Commit; a taken permit is released with the same key or owned by the open delivery whose clean-up releases it; late-started target deliveries are recorded. What a target's Abort undoes is not decided.",
       "trusts go/types, go/cfg; A1 about go-smtp's command sequencing (version pinned, check fails if go.mod resolves another version)", "DESIGN.md §3 C03")
 PENDING.pop("C03", None)
+
+claim("C11", "acquire/release pairing queries over go/cfg exits with error nil-ness refinement (session, remote target, destination permit, roll-back), guard/use and write-only-list rules on the scope wiring, nil-returning-helper and guard-contradiction rules, sign rule for staleness comparisons",
+      "Decides: each scope's limiter is built from its own constructor list; on every control-flow exit after a successful Take* the permit is released with the same key or owned by an object whose Close releases it (endpoint session = C03.R5, remote Start/Close, connectionForDomain, every iteration of the Close loop); roll-back in Group.TakeMsg and MultiLimit releases exactly the stages/prefix acquired; no limiter that may be absent is dereferenced; staleness comparisons have the satisfiable direction. The run-time count of holders is not explored.",
+      "trusts go/types, go/cfg; two named infeasible-path exceptions with mechanically checked side-conditions (DESIGN.md §2.3)", "DESIGN.md §3 C11")
+PENDING.pop("C11", None)
